@@ -119,7 +119,7 @@ fn c13_char_of_byte_counts_characters_3_bytes() {
     char_of_byte_two_queries::<3, 4>(&b);
 }
 
-//@ tier: attempt
+//@ tier: thorough
 //@ funcs: regex::ByteChar::new, regex::ByteChar::chars, regex::ByteChar::char_of_byte, bstr::ByteSlice::char_indices
 //@ bounds: every byte string of length 4 (all 2^32, includes 4-byte characters and their truncations); two consecutive queries with any byte offsets 0..=5 in any order
 //@ asserts: as c13_char_of_byte_counts_characters_2_bytes
